@@ -8,7 +8,7 @@
    second group gives the fuel bound. *)
 From PV Require Import Base.Prelude Spec.LuaLex Instances.HoldsC01 Generated.T_files_build Model.ReqEmbed
   Model.ReqEmbedInst Proofs.ReqEmbedProofs Proofs.ReqEmbedInstProofs Proofs.SpecLexChunk Proofs.ReqEmbedSpecTokens
-  Instances.HoldsC06 Proofs.LexerChunk.
+  Instances.HoldsC06 Proofs.LexerChunk Proofs.ReqEmbedEchoGood.
 
 Section Abstract.
 Variable P : Type.
@@ -278,26 +278,28 @@ Theorem C14_echo_views : forall ls q t,
   from_lines ls = Ok q -> sig_views (concat ls) = Some t -> sig_views (concat (echo_lines q)) = Some t.
 Proof. exact echo_views. Qed.
 
-(* hence the token-level clause for the concrete stack against the reference tokenizer WITHOUT any
-   hypothesis about the lexer: for a main program of bytes in the dialect, packages whose header line and
-   echoed code are in the dialect, and provided the lines handed to the final parse are well formed
-   (each but the last ends in a line feed - false only when a package's last line has no newline, the
-   case in which build.py appends a separate newline line - and all are bytes), the significant tokens of
-   the cart's code are those of the package preamble, then per table entry header + echoed package +
-   `end`, then the require() preamble, then the main program's tokens, unchanged.  Still partial: the
-   link between a STRIPPED package's echoed code and its file's tokens (C14_block_tokens_partial's
-   hypothesis) is not proved; the monitor checks it on every run. *)
-Theorem C14_tokens_spec_partial :
+(* the echo of a text of the dialect given as lines ending in LF is again such a line list, of bytes *)
+Theorem C14_echo_lines_good : forall ls ts,
+  good_lines ls -> spec_lex (concat ls) <> None -> Model.Lexer.model_lex ls = Ok ts ->
+  good_lines (echo_toks ts [] false).
+Proof. exact dialect_echo_good. Qed.
+
+(* THE token-level clause for the concrete stack against the reference tokenizer, without any hypothesis
+   about the lexer, the chunking, the echo or the constants.  For a main program of bytes in the dialect
+   and a package table each of whose entries e satisfies
+     - its header line  package._c["name"]=function()  is made of bytes and is in the dialect,
+     - its echoed code is in the dialect,
+     - [pkg_shape e]: the lines of its echoed code are bytes, end in LF, including the last one,
+   the significant tokens of the cart's code are: the package preamble, then per table entry header +
+   echoed package + `end`, then the require() preamble, then the main program's tokens, unchanged. *)
+Theorem C14_tokens_spec :
   forall cwd fs lua_path fuel main_path main_content out,
   build_code_now cwd fs lua_path fuel main_path main_content = Ok out ->
   exists r pk, build_lua_now cwd fs lua_path fuel main_path main_content = Ok (r, pk) /\
     let toks := toks (Z * list Z * Z * Z * Z) sig_views in
     let lexes := lexes (Z * list Z * Z * Z * Z) sig_views in
-    (Forall (fun e => lexes (header_line_now (fst e)) /\ lexes (concat (echo_lines (snd e)))) pk ->
-     lexes main_content -> Forall byte main_content ->
-     (forall m, from_lines (file_lines main_content) = Ok m ->
-                good_lines (prepend_lines lua echo_lines require_lua_preamble_package
-                                          require_lua_preamble_require header_line_now end_line_now nl_line_now m pk)) ->
+    (lexes main_content -> Forall byte main_content ->
+     Forall (fun e => lexes (header_line_now (fst e)) /\ lexes (concat (echo_lines (snd e))) /\ pkg_shape e) pk ->
      sig_views out = Some match pk with
                           | [] => toks main_content
                           | _ => concat (map toks require_lua_preamble_package)
@@ -305,7 +307,28 @@ Theorem C14_tokens_spec_partial :
                                                           ++ toks (concat (echo_lines (snd e))) ++ toks end_line_now) pk)
                                  ++ concat (map toks require_lua_preamble_require) ++ toks main_content
                           end).
-Proof. exact build_code_tokens_spec. Qed.
+Proof. exact build_code_tokens_full. Qed.
+
+(* the per-entry conditions are THEOREMS for a package embedded with its game loop ({use_game_loop=true}:
+   its object is the lexed + parsed file) whose file is made of bytes, is in the dialect and is empty or
+   ends in a newline - and its echoed code then has exactly the file's tokens.
+   RESIDUAL (why the clause as a whole stays partial; both are checked on every run by holds_C14):
+   (1) a package whose file does not end in a newline (build.py then adds a separate one-byte newline
+       line; the lexer stack's chunking theorem does not cover a line without LF followed by that line);
+   (2) a package embedded WITHOUT its game loop (the default): its object is the re-lexed echo of the token
+       list with the game loop functions taken out; that this text is in the dialect, ends in a newline and
+       has the file's tokens minus the top-level game loop definitions (Spec/RequireSpec.spec_strip) is not
+       proved (it needs the parser's statement ranges to agree with the reference description);
+       C14_block_tokens_partial states it relative to that hypothesis, C14_strip_only_removes proves that
+       stripping only removes tokens. *)
+Theorem C14_pkg_conditions_unstripped : forall c q,
+  Forall byte c -> lexes (Z * list Z * Z * Z * Z) sig_views c -> (c = [] \/ ends_lf c) ->
+  from_lines (file_lines c) = Ok q ->
+  lexes (Z * list Z * Z * Z * Z) sig_views (concat (echo_lines q)) /\
+  toks (Z * list Z * Z * Z * Z) sig_views (concat (echo_lines q)) = toks (Z * list Z * Z * Z * Z) sig_views c /\
+  good_lines (echo_lines q) /\
+  (echo_lines q = [] \/ ends_lf (last (echo_lines q) [])).
+Proof. exact unstripped_pkg_ok. Qed.
 
 (* the stripping step of the concrete model, before the text is lexed again: whatever statements of
    the tree are taken for game loop functions and wherever their token ranges lie, the significant
@@ -332,7 +355,9 @@ Print Assumptions C14_tokens_partial_now.
 Print Assumptions C14_strip_only_removes.
 Print Assumptions C14_reference_chunking.
 Print Assumptions C14_reference_final_lf.
-Print Assumptions C14_tokens_spec_partial.
+Print Assumptions C14_echo_lines_good.
+Print Assumptions C14_tokens_spec.
+Print Assumptions C14_pkg_conditions_unstripped.
 Print Assumptions C14_echo_predicate_suffices.
 Print Assumptions C14_echo_views.
 
